@@ -96,7 +96,18 @@ impl Service {
         let mut perpetual_changed = false;
         if let Some(old_instance) = old_instance {
             instance.register_time = old_instance.register_time;
-            if instance.ephemeral && !instance.from_grpc && old_instance.from_grpc {
+            // the kind the instance will have after this update: a request whose tag does not
+            // cover `ephemeral` (a heartbeat, for instance) leaves the stored kind as it is
+            let keeps_old_kind = update_tag
+                .as_ref()
+                .map(|tag| !tag.ephemeral)
+                .unwrap_or(false);
+            let ephemeral_after = if keeps_old_kind {
+                old_instance.ephemeral
+            } else {
+                instance.ephemeral
+            };
+            if ephemeral_after && !instance.from_grpc && old_instance.from_grpc {
                 /*
                 match (old_instance.from_grpc, old_instance.is_from_cluster()) {
                     (true, true) => {
